@@ -6,3 +6,6 @@ import "runtime"
 
 func raceDisable() { runtime.RaceDisable() }
 func raceEnable()  { runtime.RaceEnable() }
+
+// race builds are several times slower and spend long stretches printing reports
+const watchdogScale = 8
